@@ -103,7 +103,7 @@ func init() {
 		"determinism of the dependencies (rassemble-go, regexp, sort, mergo on map[string]string) is assumed; determinism of the exit status under I/O faults is not examined.",
 		[]string{"rassemble-go v0.1.2, regexp, sort and mergo (for map[string]string) are deterministic"},
 		func(c *Ctx, tier string) []*Result {
-			return []*Result{c.RuleMapOrder(), c.RuleRxDisjoint(tier == "thorough"), c.RuleDefFragment(), c.RuleNondetSrc([]string{"generate", "update", "compare", "format"}), c.RuleOrderKey(), c.RuleSuffixOps(), c.RuleIsoGlobal("unit:(*regex/operators.Operator).Run"), keyHas(c.RuleIsoFresh(), 2, "cmd update", "cmd compare"), c.RuleLogStderr(), c.RuleStdoutPure(), c.RuleGoShared()}
+			return []*Result{c.RuleMapOrder(), c.RuleRxDisjoint(tier == "thorough"), c.RuleDefFragment(), c.RuleNondetSrc([]string{"generate", "update", "compare", "format"}), c.RuleOrderKey(), c.RuleSuffixOps(), c.RuleIsoGlobal("unit:(*regex/operators.Operator).Run"), keyHas(c.RuleIsoFresh(), 2, "cmd update", "cmd compare"), c.RuleLogStderr(), c.RuleStdoutPure(), c.RuleGoShared(), c.RuleCtorDefaults()}
 		})
 
 	prop("C05", "other",
@@ -114,7 +114,7 @@ func init() {
 		func(c *Ctx, tier string) []*Result {
 			drop, handle := c.RuleErrCached()
 			return []*Result{c.RuleIsoOwner(), c.RuleFlagsReject(), keyHas(c.RuleIsoFresh(), 2, ":regex/parser."), c.RuleIsoGlobal("unit:(*regex/operators.Operator).Run"),
-				inPkg(drop, 3, "regex/parser"), inPkg(handle, 3, "regex/parser"), c.RuleDeferInLoop(), c.RuleDefMerge(), c.RuleContextDirs(), c.RuleCutset(), c.RuleLogStderr(), c.RuleStdoutPure(), c.RuleIncludeName(), c.RulePatternPin("regex.IncludeRegex", "regex.IncludeExceptRegex"), c.RuleReadLine(), c.RuleBorrow(), c.RuleIncludeFrame(), c.RuleIncludePass(), c.RuleDoubleWrap(), c.RuleGoShared()}
+				inPkg(drop, 3, "regex/parser"), inPkg(handle, 3, "regex/parser"), c.RuleDeferInLoop(), c.RuleDefMerge(), c.RuleContextDirs(), c.RuleCutset(), c.RuleLogStderr(), c.RuleStdoutPure(), c.RuleIncludeName(), c.RulePatternPin("regex.IncludeRegex", "regex.IncludeExceptRegex"), c.RuleReadLine(), c.RuleBorrow(), c.RuleIncludeFrame(), c.RuleIncludePass(), c.RuleDoubleWrap(), c.RuleGoShared(), c.RuleLimitRead()}
 		})
 
 	prop("C06", "other",
@@ -124,7 +124,7 @@ func init() {
 		nil,
 		func(c *Ctx, tier string) []*Result {
 			return []*Result{inPkg(c.RuleMapOrder(), 2, "regex/parser"), c.RuleOrderKey(),
-				inPkg(c.RuleRxGroups(), 1, "regex/parser"), inPkg(c.RuleScanErr(), 0, "regex/parser"), c.RuleReadEOF(), c.RuleSuffixOps(), c.RuleExclKey(), c.RuleIsoGlobal("unit:(*regex/operators.Operator).Run"), c.RuleDefMerge(), c.RuleCutset(), c.RuleLogStderr(), c.RuleStdoutPure(), c.RuleIsoOwner(), c.RuleIncludeName(), c.RulePatternPin("regex.IncludeExceptRegex", "regex.IncludeRegex"), c.RuleReadLine(), c.RuleBorrow(), c.RuleIncludePass(), c.RuleExclOrder(), c.RuleGoShared()}
+				inPkg(c.RuleRxGroups(), 1, "regex/parser"), inPkg(c.RuleScanErr(), 0, "regex/parser"), c.RuleReadEOF(), c.RuleSuffixOps(), c.RuleExclKey(), c.RuleIsoGlobal("unit:(*regex/operators.Operator).Run"), c.RuleDefMerge(), c.RuleCutset(), c.RuleLogStderr(), c.RuleStdoutPure(), c.RuleIsoOwner(), c.RuleIncludeName(), c.RulePatternPin("regex.IncludeExceptRegex", "regex.IncludeRegex"), c.RuleReadLine(), c.RuleBorrow(), c.RuleIncludePass(), c.RuleExclOrder(), c.RuleGoShared(), c.RuleLimitRead(), c.RuleCtorDefaults()}
 		})
 
 	prop("C07", "other",
@@ -144,7 +144,7 @@ func init() {
 		"byte equality of the reports (the compare summary lines are value-level).",
 		nil,
 		func(c *Ctx, tier string) []*Result {
-			return []*Result{c.RuleIsoFresh(), c.RuleIsoGlobal("update", "compare", "format"), c.RuleSiblingRuleId(), c.RuleWalkSkip(), c.RuleWalkFilter("update", "compare", "format"), c.RuleErrWrap(), c.RuleRxGrammar(), c.RuleResolve(), keyHas(c.RuleFsGuard([]string{"format"}), 1, "cmd format"), keyHas(c.RuleFsTarget([]string{"format"}), 1, "cmd format"), c.RuleGoShared()}
+			return []*Result{c.RuleIsoFresh(), c.RuleIsoGlobal("update", "compare", "format"), c.RuleSiblingRuleId(), c.RuleWalkSkip(), c.RuleWalkFilter("update", "compare", "format"), c.RuleErrWrap(), c.RuleRxGrammar(), c.RuleResolve(), keyHas(c.RuleFsGuard([]string{"format"}), 1, "cmd format"), keyHas(c.RuleFsTarget([]string{"format"}), 1, "cmd format"), c.RuleGoShared(), c.RuleCutset()}
 		})
 
 	prop("C09", "other",
@@ -155,7 +155,7 @@ func init() {
 		func(c *Ctx, tier string) []*Result {
 			return []*Result{keyHas(c.RuleFsGuard([]string{"format"}), 1, "cmd format"), c.RuleFsSame([]string{"format"}),
 				inFns(c.RuleErrFlags(), c.cmdFns("format"), 0), keyHas(c.RuleFsAlways([]string{"format"}), 1, "cmd format"), inFns(c.RuleFsWriteDiscipline(), c.cmdFns("format"), 1), c.RuleFormatOnly(),
-				c.RuleWalkSkip("format"), c.RuleWalkFilter("format"), inFns(c.RuleResolve(), c.cmdFns("format"), 1), c.RulePredPure(), c.RuleFmtTrim(), inFns(c.errHandleOnly(), c.cmdFns("format"), 2), inFns(c.RuleErrLog(), c.cmdFns("format"), 1), c.RuleExactCompare(), c.RulePatternPin("regex.ProcessorEndRegex", "regex.ProcessorStartRegex"), c.RuleReadLine(), c.RuleBorrow(), c.RuleScanSplit()}
+				c.RuleWalkSkip("format"), c.RuleWalkFilter("format"), inFns(c.RuleResolve(), c.cmdFns("format"), 1), c.RulePredPure(), c.RuleFmtTrim(), inFns(c.errHandleOnly(), c.cmdFns("format"), 2), inFns(c.RuleErrLog(), c.cmdFns("format"), 1), c.RuleExactCompare(), c.RulePatternPin("regex.ProcessorEndRegex", "regex.ProcessorStartRegex"), c.RuleReadLine(), c.RuleBorrow(), c.RuleScanSplit(), c.RuleCtorDefaults()}
 		})
 
 	prop("C10", "other",
@@ -180,7 +180,7 @@ func init() {
 			upd := c.cmdFns("update")
 			return []*Result{keyHas(c.RuleFsTarget([]string{"update"}), 1, "cmd update"), c.RuleSplitJoinFrame(), inFns(c.RuleRxRebuild(), upd, 1),
 				inFns(c.RuleValidate(), upd, 1), c.RuleTemplate(upd), inFns(c.RuleFsWriteDiscipline(), upd, 1), inFns(c.RuleResolve(), upd, 1), keyHas(c.RuleIsoFresh(), 1, "cmd update"),
-				inFns(c.RuleNarrow(), upd, 1), inFns(c.RuleSiblingRuleId(), upd, 1), c.RuleIsoGlobal("update"), c.RuleSiblingLocator(), inFns(c.errHandleOnly(), upd, 2), c.RuleWriteReached("update"), c.RuleRxGrammar(), keyHas(c.RuleResolve(), 1, "input of the assembler"), c.RulePatternPin("regex.RuleRxRegex", "regex.SecRuleRegex"), c.RuleReadLine(), c.RuleBorrow(), c.RuleSearchResume(), c.RuleGoShared()}
+				inFns(c.RuleNarrow(), upd, 1), inFns(c.RuleSiblingRuleId(), upd, 1), c.RuleIsoGlobal("update"), c.RuleSiblingLocator(), inFns(c.errHandleOnly(), upd, 2), c.RuleWriteReached("update"), c.RuleRxGrammar(), keyHas(c.RuleResolve(), 1, "input of the assembler"), c.RulePatternPin("regex.RuleRxRegex", "regex.SecRuleRegex"), c.RuleReadLine(), c.RuleBorrow(), c.RuleSearchResume(), c.RuleGoShared(), c.RuleWalkSkip("update")}
 		})
 
 	prop("C12", "other",
@@ -193,9 +193,9 @@ func init() {
 			for k := range c.cmdFns("compare") {
 				both[k] = true
 			}
-			return []*Result{c.RuleSiblingLocator(), c.RuleCompareVerdict(), keyHas(inFns(c.RuleRxGroups(), both, 2), 2, "regex.RuleRxRegex"),
+			return []*Result{c.RuleSiblingLocator(), c.RuleCompareVerdict(), keyHas(inFns(c.RuleRxGroups(), both, 1), 1, "regex.RuleRxRegex"),
 				inFns(c.RuleErrFlags(), c.cmdFns("compare"), 0), c.RuleTemplate(c.cmdFns("update")), inFns(c.RuleRxRebuild(), c.cmdFns("update"), 1),
-				inFns(c.RuleNarrow(), both, 1), c.RuleSiblingRuleId(), c.RuleSplitJoinFrame(), c.RuleIsoGlobal("update", "compare"), inPkg(c.RuleMapOrder(), 2, "regex/parser"), c.RuleErrWrap(), c.RuleValidateStore(), c.RuleWriteReached("update"), c.RuleLogStderr(), c.RuleStdoutPure(), c.RuleRxGrammar(), c.RuleWalkSkip("update", "compare"), inFns(c.RuleValidate(), c.cmdFns("update"), 1), c.RulePrintfConst(), keyHas(c.RuleResolve(), 1, "input of the assembler"), c.RuleExactCompare(), c.RulePatternPin("regex.RuleRxRegex", "regex.SecRuleRegex"), c.RuleReadLine(), c.RuleBorrow(), c.RuleSearchResume()}
+				inFns(c.RuleNarrow(), both, 1), c.RuleSiblingRuleId(), c.RuleSplitJoinFrame(), c.RuleIsoGlobal("update", "compare"), inPkg(c.RuleMapOrder(), 2, "regex/parser"), c.RuleErrWrap(), c.RuleValidateStore(), c.RuleWriteReached("update"), c.RuleLogStderr(), c.RuleStdoutPure(), c.RuleRxGrammar(), c.RuleWalkSkip("update", "compare"), inFns(c.RuleValidate(), c.cmdFns("update"), 1), c.RulePrintfConst(), keyHas(c.RuleResolve(), 1, "input of the assembler"), c.RuleExactCompare(), c.RulePatternPin("regex.RuleRxRegex", "regex.SecRuleRegex"), c.RuleReadLine(), c.RuleBorrow(), c.RuleSearchResume(), inFns(c.errHandleOnly(), c.cmdFns("compare"), 1)}
 		})
 
 	prop("C13", "other",
@@ -206,7 +206,7 @@ func init() {
 		func(c *Ctx, tier string) []*Result {
 			return []*Result{keyHas(c.RuleFsGuard([]string{"renumber-tests"}), 1, "cmd renumber-tests"), c.RuleFsSame([]string{"renumber-tests"}),
 				keyHas(c.RuleFsTarget([]string{"renumber-tests"}), 1, "cmd renumber-tests"), inFns(c.RuleRxRebuild(), c.cmdFns("renumber-tests"), 2),
-				inFns(c.RuleScanErr(), c.cmdFns("renumber-tests"), 1), inFns(c.RuleRxGroups(), c.cmdFns("renumber-tests"), 3), c.RuleIsoGlobal("renumber-tests"),
+				inFns(c.RuleScanErr(), c.cmdFns("renumber-tests"), 0), c.RuleReadEOF(), inFns(c.RuleRxGroups(), c.cmdFns("renumber-tests"), 3), c.RuleIsoGlobal("renumber-tests"),
 				inFns(c.RuleErrFlags(), c.cmdFns("renumber-tests"), 0), c.RuleFsAlways([]string{"renumber-tests"}), inFns(c.RuleFsWriteDiscipline(), c.cmdFns("renumber-tests"), 1), c.RuleWalkFilter("renumber-tests"), c.RuleWalkSkip("renumber-tests"), inFns(c.errHandleOnly(), c.cmdFns("renumber-tests"), 2), c.RuleRxSibling(), c.RuleTestFileGrammar(), c.RuleBufAlias(), c.RulePatternPin("regex.TestIdRegex", "regex.TestTitleRegex"), c.RuleReadLine(), c.RuleBorrow(), c.RuleBufwFlush()}
 		})
 
@@ -216,7 +216,7 @@ func init() {
 		"that all other text is untouched (value-level; a missing final newline is added).",
 		[]string{"semver.NewVersion accepts a subset of its anchored versionRegex (read from the library source in the module cache)", "the year is four digits (quantifier of C14; the command does not validate it)"},
 		func(c *Ctx, tier string) []*Result {
-			return []*Result{c.RuleRxIncl(), keyHas(c.RuleFsTarget([]string{"update-copyright"}), 1, "cmd update-copyright"), inFns(c.RuleScanErr(), c.cmdFns("update-copyright"), 1),
+			return []*Result{c.RuleRxIncl(), keyHas(c.RuleFsTarget([]string{"update-copyright"}), 1, "cmd update-copyright"), inFns(c.RuleScanErr(), c.cmdFns("update-copyright"), 0), c.RuleReadEOF(),
 				c.RuleFsAlways([]string{"update-copyright"}), c.RuleTemplate(c.cmdFns("update-copyright")), c.RuleIsoGlobal("update-copyright"), inFns(c.RuleFsWriteDiscipline(), c.cmdFns("update-copyright"), 1), c.RuleWalkFilter("update-copyright"), c.RuleWalkSkip("update-copyright"), keyHas(c.RuleResolve(), 1, "root", "Root", "workingDirectory"), c.RuleBufAlias(), c.RuleReadLine(), c.RuleBorrow(), c.RuleBufwFlush()}
 		})
 
@@ -226,7 +226,7 @@ func init() {
 		"a user argument containing '..' joined below a context directory (hostile arguments are outside the quantifier); cobra's completion debug file, which only the hidden __complete command writes when BASH_COMP_DEBUG_FILE is set (reviewed exclusion, DESIGN.md).",
 		[]string{"third-party functions write only where the computed static closure (calls and function-value references inside the dependencies) says"},
 		func(c *Ctx, tier string) []*Result {
-			return []*Result{c.RuleFsWrite(), c.RuleFsGuard([]string{"format", "renumber-tests"}), c.RuleFsTarget([]string{"format", "update", "renumber-tests", "update-copyright", "self-update"}), c.RuleFsWriteDiscipline(), keyHas(c.RuleResolve(), 1, "root", "Root", "workingDirectory"), keyHas(c.errHandleOnly(), 1, "workingDirectory"), c.RuleContextDirs(), c.RuleTestFileGrammar(), c.RuleWalkFilter("update", "compare", "format", "update-copyright")}
+			return []*Result{c.RuleFsWrite(), c.RuleFsGuard([]string{"format", "renumber-tests"}), c.RuleFsTarget([]string{"format", "update", "renumber-tests", "update-copyright", "self-update"}), c.RuleFsWriteDiscipline(), keyHas(c.RuleResolve(), 1, "root", "Root", "workingDirectory"), keyHas(c.errHandleOnly(), 1, "workingDirectory"), c.RuleContextDirs(), c.RuleTestFileGrammar(), c.RuleWalkFilter("update", "compare", "format", "update-copyright"), c.RuleCtorDefaults()}
 		})
 
 	prop("C18", "other",
@@ -257,6 +257,6 @@ func init() {
 			drop, handle := c.RuleErrCached()
 			upd := c.cmdFns("self-update")
 			ev := c.RuleErrEvent()
-			return append(c.RuleUpd(), inFns(drop, upd, 2), inFns(handle, upd, 2), inFns(ev, upd, 1))
+			return append(c.RuleUpd(), inFns(drop, upd, 2), inFns(handle, upd, 2), inFns(ev, upd, 1), c.RuleErrExit())
 		})
 }
